@@ -15,11 +15,12 @@ open LyModel
 inductive Err | fail | fuel
   deriving DecidableEq, Repr
 
-inductive Kind | container | list | leaf | leaflist | choice | case
+inductive Kind | container | list | leaf | leaflist | choice | case | action | input | output | notif
   deriving DecidableEq, Repr, Inhabited
 
 def Kind.name : Kind → String
   | .container => "container" | .list => "list" | .leaf => "leaf" | .leaflist => "leaf-list" | .choice => "choice" | .case => "case"
+  | .action => "action" | .input => "input" | .output => "output" | .notif => "notification"
 
 abbrev QName := String × String          -- (module name, node name)
 abbrev Path := List QName
@@ -148,6 +149,7 @@ structure CData where
   max : Nat
   typ : Option CType
   units : Option String
+  noCfg : Bool := false    -- inside RPC / action / notification: no config flag at all (`config` is then false = "not LYS_CONFIG_W")
   deriving Inhabited
 
 inductive CNode
@@ -289,6 +291,8 @@ structure Cx where
   disabled : Bool := false       -- LYS_COMPILE_DISABLED
   stack : List String := []      -- ctx->groupings
   grp : Bool := false            -- LYS_COMPILE_GROUPING (validation of an unused grouping)
+  noCfg : Bool := false          -- LYS_COMPILE_NO_CONFIG
+  io : Nat := 0                  -- 1 = inside input, 2 = inside output, 3 = inside a notification (LYS_IS_INPUT / _OUTPUT / _NOTIF)
   deriving Inhabited
 
 /-! ### refine / deviate application on the parsed node copy -/
@@ -432,8 +436,11 @@ def enabled (feats : List String) (iffs : List String) : Bool := iffs.all feats.
 
 /-! ### connecting a node: `lys_compile_node_connect` + `lys_compile_node_uniqness` -/
 
-/-- position of a new child among the children of `parentMod`'s node -/
-def connectPos (children : List CNode) (parentMod : String) (n : CNode) : List CNode :=
+/-- which sibling list of the parent a node lives in: children, actions, notifications -/
+def Kind.cls (k : Kind) : Nat := if k == .action then 1 else if k == .notif then 2 else 0
+
+/-- position of a new node in ONE sibling list of `parentMod`'s node -/
+def connectPos1 (children : List CNode) (parentMod : String) (n : CNode) : List CNode :=
   match children.getLast? with
   | none => [n]
   | some last =>
@@ -447,6 +454,12 @@ def connectPos (children : List CNode) (parentMod : String) (n : CNode) : List C
       let k := (rev.findIdx? fun a => a.d.mod == n.d.mod || decide (a.d.mod < n.d.mod) || a.d.mod == parentMod).getD rev.length
       let cut := children.length - k
       children.take cut ++ [n] ++ children.drop cut
+
+/-- the children are kept as children ++ actions ++ notifications (the order of the dump); a new node goes into its own list -/
+def connectPos (children : List CNode) (parentMod : String) (n : CNode) : List CNode :=
+  children.filter (fun c => decide (c.d.kind.cls < n.d.kind.cls)) ++
+  connectPos1 (children.filter (fun c => c.d.kind.cls == n.d.kind.cls)) parentMod n ++
+  children.filter (fun c => decide (c.d.kind.cls > n.d.kind.cls))
 
 mutual
 /-- the data nodes inside a choice that a sibling of the choice is compared with (`lys_getnext` without WITHCHOICE) -/
@@ -554,14 +567,20 @@ def nodeHead (env : Env) (st : St) (cx : Cx) (inh : Nat) (p0 : Props) : Except E
     let notSupp := notSupp && !cx.grp
     let selfDis := (notSupp || !en) && !cx.disabled
     let dis := cx.disabled || notSupp || !en
-    match compileConfig cx.parent (if p.kind == .case then none else p.config), compileStatus p.status inh (match cx.parent with | some pi => pi.status | none => 0) with
+    -- an action / notification inside an RPC, action or notification is an error (`lys_compile_node`)
+    if (p.kind == .action || p.kind == .notif) && cx.io != 0 then .error .fail else
+    -- LYS_COMPILE_NO_CONFIG: config statements are ignored, the node has no config flag
+    let noCfg := cx.noCfg || p.kind == .action || p.kind == .notif
+    match (if noCfg then .ok false else compileConfig cx.parent (if p.kind == .case then none else p.config)), compileStatus p.status inh (match cx.parent with | some pi => pi.status | none => 0) with
     | .error e, _ => .error e
     | _, .error e => .error e
     | .ok cfgv, .ok stv =>
       let me : PInfo := { mod := cx.cur, name := p.name, kind := p.kind, config := cfgv, status := stv }
-      let cxk : Cx := { cx with ppath := path, parent := some me, disabled := dis }
+      let io : Nat := if p.kind == .input then 1 else if p.kind == .output then 2 else if p.kind == .notif then 3 else cx.io
+      let cxk : Cx := { cx with ppath := path, parent := some me, disabled := dis, noCfg := noCfg, io := io }
       let d0 : CData := { mod := cx.cur, name := p.name, kind := p.kind, config := cfgv, status := stv, mand := false,
-                          presence := false, whens := p.whens, disabled := selfDis, dflts := [], min := 0, max := 0, typ := none, units := none }
+                          presence := false, whens := p.whens, disabled := selfDis, dflts := [], min := 0, max := 0, typ := none, units := none,
+                          noCfg := noCfg }
       .ok (st, { p := p, d0 := d0, cxk := cxk, dis := dis })
 
 /-- `lys_compile_node_leaf` / `_leaflist` (+ the default part of `lys_compile_unres_depset`) -/
@@ -723,7 +742,9 @@ def compileAug (env : Env) : Nat → St → Cx → PAug → Bool → List CNode 
     let adis := !en && !cx.disabled
     let cx' := { cx with disabled := cx.disabled || !en }
     let allowMand := h.whens > 0 || tgt.kind == .choice || cx.cur == tgt.mod
-    if tgt.kind == .leaf || tgt.kind == .leaflist then .error .fail else
+    if tgt.kind == .leaf || tgt.kind == .leaflist || tgt.kind == .action then .error .fail else
+    -- actions / notifications only into containers and lists
+    if !(tgt.kind == .container || tgt.kind == .list) && kids.any (fun k => match k with | .node p _ => p.kind == .action || p.kind == .notif | _ => false) then .error .fail else
     if tgt.kind != .choice && kids.any (fun k => match k with | .node p _ => p.kind == .case | _ => false) then .error .fail else
     let r : Except Err (St × List CNode × List CNode) :=
       if tgt.kind == .choice then
